@@ -1,6 +1,7 @@
 package main
 
 import (
+	"sync"
 	"crypto/sha1"
 	"fmt"
 	"go/constant"
@@ -83,7 +84,7 @@ func (vc *VC) region(st *State, name string, nidx int, leaf string) Term {
 		vc.subs["wf:"+name] = true
 		// the cell term and its binders, by region shape
 		binders, cell := "(r Int)", fmt.Sprintf("(select %s r)", t)
-		if i := strings.Index(rk, "|"); i > 0 && strings.HasPrefix(rk, "map:") {
+		if i := strings.LastIndex(rk, "|"); i > 0 && strings.HasPrefix(rk, "map:") {
 			binders, cell = fmt.Sprintf("(r Int) (k %s)", rk[4:i]), fmt.Sprintf("(select (select %s r) k)", t)
 			rk = rk[i+1:]
 		} else if nidx == 2 {
@@ -122,7 +123,7 @@ func (vc *VC) typeInv(name string, t Term, depth int) {
 		return
 	}
 	binders, cell := "", t
-	if i := strings.Index(rk, "|"); i > 0 && strings.HasPrefix(rk, "map:") {
+	if i := strings.LastIndex(rk, "|"); i > 0 && strings.HasPrefix(rk, "map:") {
 		if depth != 1 {
 			return
 		}
@@ -212,8 +213,27 @@ func (vc *VC) rowOf(reg, base Term) Term {
 
 func (vc *VC) regionSort(name string) (int, string) {
 	ri := vc.eng.regions[name]
+	// the region registry is shared by all functions of a run: a region whose sort mentions a
+	// struct-key datatype declared while verifying another function needs that datatype here too
+	if i := strings.Index(ri.leaf, "|Key<"); i >= 0 {
+		if j := strings.Index(ri.leaf[i+1:], "|"); j >= 0 {
+			key := ri.leaf[i+1 : i+1+j]
+			keyDeclMu.Lock()
+			decl := keySortDecls[key]
+			keyDeclMu.Unlock()
+			if decl != "" && !vc.subs[key] {
+				vc.sc.raw(decl)
+				vc.subs[key] = true
+			}
+		}
+	}
 	return ri.nidx, ri.leaf
 }
+
+var (
+	keyDeclMu    sync.Mutex
+	keySortDecls = map[string]string{} // "Key<pkg.T>" -> its declare-datatypes line
+)
 
 // leaves of a cell location of type T: suffix, kind
 type leafSpec struct {
